@@ -186,6 +186,19 @@ func runC18(c *Ctx) {
 	certPEM := pemBlock("CERTIFICATE", caDER)
 	csrPEM := pemBlock("CERTIFICATE REQUEST", csrDER)
 	pfx, _ := pkcs12.Encode(k, caCert, nil, "pw")
+	// more PKCS#12 shapes: third-party bundles (friendly names, a CA certificate, PBES2) and a bundle with an RSA key
+	p12more := [][]byte{}
+	for _, fx := range p12Fixtures {
+		if b, e := hex.DecodeString(fx.pfx); e == nil {
+			p12more = append(p12more, b)
+		}
+	}
+	rsaK, _ := cachedRSA()
+	pkcs1DER := x509MarshalPKCS1(rsaK)
+	pkcs8RSA := x509MarshalPKCS8(rsaK)
+	ecK := newP256Key(r)
+	pkcs8EC := x509MarshalPKCS8(ecK)
+	pkcs8SM2, _ := gx509.MarshalSm2UnecryptedPrivateKey(k)
 	ctRaw, _ := sm2.Encrypt(&k.PublicKey, []byte("hello sm2 ciphertext"), r, sm2.C1C3C2)
 	ctRaw2, _ := sm2.Encrypt(&k.PublicKey, []byte("hello sm2 ciphertext"), r, sm2.C1C2C3)
 	ctASN, _ := sm2.EncryptAsn1(&k.PublicKey, []byte("hello sm2 ciphertext"), r)
@@ -255,9 +268,11 @@ func runC18(c *Ctx) {
 		{name: "x509.ReadPrivateKeyFromHex", f: func(b []byte) { gx509.ReadPrivateKeyFromHex(string(b)) }, corpus: nz(hexPriv)},
 		{name: "x509.ReadPublicKeyFromHex", f: func(b []byte) { gx509.ReadPublicKeyFromHex(string(b)) }, corpus: nz(hexPub)},
 		{name: "x509.CertPool.AppendCertsFromPEM", f: func(b []byte) { gx509.NewCertPool().AppendCertsFromPEM(b) }, corpus: nz(append(append([]byte{}, certPEM...), pemBlock("CERTIFICATE", leafDER)...))},
-		{name: "pkcs12.DecodeAll", f: func(b []byte) { pkcs12.DecodeAll(b, "pw") }, corpus: nz(pfx), asn1: true, stretch: true, heavy: true},
-		{name: "pkcs12.Decode", f: func(b []byte) { pkcs12.Decode(b, "pw") }, corpus: nz(pfx), asn1: true, stretch: true, heavy: true},
-		{name: "pkcs12.ToPEM", f: func(b []byte) { pkcs12.ToPEM(b, "pw") }, corpus: nz(pfx), asn1: true, stretch: true, heavy: true},
+		{name: "pkcs12.DecodeAll", f: func(b []byte) { pkcs12.DecodeAll(b, "pw") }, corpus: nz(append([][]byte{pfx}, p12more...)...), asn1: true, stretch: true, heavy: true},
+		{name: "pkcs12.Decode", f: func(b []byte) { pkcs12.Decode(b, "pw") }, corpus: nz(append([][]byte{pfx}, p12more...)...), asn1: true, stretch: true, heavy: true},
+		{name: "pkcs12.ToPEM", f: func(b []byte) { pkcs12.ToPEM(b, "pw") }, corpus: nz(append([][]byte{pfx}, p12more...)...), asn1: true, stretch: true, heavy: true},
+		{name: "pkcs12.ParsePKCS8PrivateKey", f: func(b []byte) { pkcs12.ParsePKCS8PrivateKey(b) }, corpus: nz(pkcs8RSA, pkcs8EC, pkcs8SM2), asn1: true},
+		{name: "x509.ParsePKCS1PrivateKey", f: func(b []byte) { gx509.ParsePKCS1PrivateKey(b) }, corpus: nz(pkcs1DER), asn1: true},
 		{name: "sm2.Decrypt(C1C3C2)", f: func(b []byte) { sm2.Decrypt(k, b, sm2.C1C3C2) }, corpus: nz(ctRaw)},
 		{name: "sm2.Decrypt(C1C2C3)", f: func(b []byte) { sm2.Decrypt(k, b, sm2.C1C2C3) }, corpus: nz(ctRaw2)},
 		{name: "sm2.DecryptAsn1", f: func(b []byte) { sm2.DecryptAsn1(k, b) }, corpus: nz(ctASN), asn1: true},
